@@ -76,8 +76,8 @@ static void bm_continue(varintBitmap *vb, bset *m) {
     if (bm_snapshot(vb, &now, "after continuation") && !bset_eq(&now, m)) OFAIL("object-unusable-after-failure", "%s: set differs from model after fault-free continuation", g_scen);
 }
 /* build a bitmap of a given shape without faults */
-enum { SH_EMPTY, SH_SMALL, SH_16, SH_4095, SH_4096, SH_4097, SH_RUNS_BIG, SH_RUNS_SMALL_AFTER_CLEAR, SH_BITMAP_DENSE, SH_BITMAP_4096, SH_N };
-static const char *const SHN[SH_N] = {"empty", "small", "16-members", "4095-members", "4096-members", "4097-members", "runs-5000", "runs-typed-empty", "bitmap-9000", "bitmap-container-with-4096"};
+enum { SH_EMPTY, SH_SMALL, SH_16, SH_4095, SH_4096, SH_4097, SH_RUNS_BIG, SH_RUNS_SMALL_AFTER_CLEAR, SH_BITMAP_DENSE, SH_BITMAP_4096, SH_BITMAP_SPARSE, SH_N };
+static const char *const SHN[SH_N] = {"empty", "small", "16-members", "4095-members", "4096-members", "4097-members", "runs-5000", "runs-typed-empty", "bitmap-9000", "bitmap-container-with-4096", "bitmap-container-with-few-members"};
 static varintBitmap *bm_make(int shape, bset *m, rng_t *r) {
     varintBitmap *vb = varintBitmapCreate();
     memset(m, 0, sizeof *m);
@@ -99,6 +99,15 @@ static varintBitmap *bm_make(int shape, bset *m, rng_t *r) {
         uint32_t v = base + i * 7 + (i % 3);
         varintBitmapAdd(vb, (uint16_t)v);
         b_add(m, v & 0xffff);
+    }
+    if (shape == SH_BITMAP_SPARSE) { /* > 4096 adds, Clear (stays BITMAP-typed), then a few adds */
+        for (uint32_t i = 0; i < 4200; i++) varintBitmapAdd(vb, (uint16_t)(i * 5));
+        varintBitmapClear(vb);
+        memset(m, 0, sizeof *m);
+        for (uint32_t i = 0; i < 20; i++) {
+            varintBitmapAdd(vb, (uint16_t)(i * 301 + base));
+            b_add(m, (i * 301 + base) & 0xffff);
+        }
     }
     if (shape == SH_BITMAP_4096) { /* a BITMAP container sitting right at the conversion threshold */
         uint32_t v = base + 5 * 7 + (5 % 3);
@@ -421,6 +430,56 @@ static void s_adaptive_decode(int v, rng_t *r) {
     free(dst);
     free(a);
 }
+static void s_adaptive_decode_cap(int v, rng_t *r) {
+    /* product of fault position and small capacity */
+    size_t n;
+    int type = v % 6;
+    uint64_t *a = mk_adaptive(r, type == VARINT_ADAPTIVE_BITMAP ? 4 : v / 6, &n);
+    uint8_t *dst = malloc(scratch_size(n));
+    size_t nb = varintAdaptiveEncodeWith(dst, a, n, (varintAdaptiveEncodingType)type, NULL);
+    size_t cap = (v / 6) % 2 ? n / 2 : 3;
+    gbuf_t gb;
+    gbuf_alloc(&gb, cap * 8, 4096, 0x19);
+    static char nm[64];
+    snprintf(nm, sizeof nm, "varintAdaptiveDecode(%d,capacity<n)", type);
+    g_ctx = nm;
+    ARM();
+    size_t dn = varintAdaptiveDecode(dst, (uint64_t *)gb.p, cap, NULL);
+    END_CALL();
+    if (gbuf_check(&gb) != -1 || dn > cap) OFAIL("write-past-output-capacity", "%s: capacity %zu of %zu, returned %zu (bytes %zu)", g_scen, cap, n, dn, nb);
+    else if (dn && memcmp(gb.p, a, dn * 8)) OFAIL("success-with-wrong-result", "%s: prefix of %zu differs", g_scen, dn);
+    gbuf_free(&gb);
+    free(dst);
+    free(a);
+}
+/* a dictionary handle re-used across index-width classes, the rebuild failing half way */
+static void s_dict_rebuild_reuse(int v, rng_t *r) {
+    size_t n1 = v % 2 ? 200 : 300, n2 = v % 2 ? 300 : 200;
+    if (v >= 2) { n1 = v == 2 ? 65000 : 66000; n2 = v == 2 ? 66000 : 65000; }
+    uint64_t *a1 = malloc(n1 * 8), *a2 = malloc(n2 * 8);
+    for (size_t i = 0; i < n1; i++) a1[i] = (rng_next(r) << 20) | i;
+    for (size_t i = 0; i < n2; i++) a2[i] = (rng_next(r) << 20) | (i + 70000);
+    varintDict *d = varintDictCreate();
+    varintDictBuild(d, a1, n1);
+    g_ctx = "varintDictBuild(reused-handle)";
+    ARM();
+    int rc = varintDictBuild(d, a2, n2);
+    END_CALL();
+    /* whichever array the handle now holds must encode to something that decodes to it */
+    const uint64_t *cur = rc == 0 ? a2 : a1;
+    size_t cn = rc == 0 ? n2 : n1;
+    uint8_t *dst = malloc(scratch_size(cn));
+    size_t nb = varintDictEncodeWithDict(dst, d, cur, cn);
+    if (nb == 0) OFAIL("object-unusable-after-failure", "%s: Build returned %d, EncodeWithDict of the array the handle holds failed", g_scen, rc);
+    else {
+        roundtrip_check("varintDictEncodeWithDict after Build", dst, nb, cur, cn);
+        if (nb != varintDictEncodedSizeWithDict(d, cn)) OFAIL("object-inconsistent-after-failure", "%s: size predictor %zu written %zu", g_scen, varintDictEncodedSizeWithDict(d, cn), nb);
+    }
+    free(dst);
+    varintDictFree(d);
+    free(a1);
+    free(a2);
+}
 static void s_adaptive_analyze(int v, rng_t *r) {
     size_t n;
     uint64_t *a = mk_adaptive(r, v, &n);
@@ -612,6 +671,8 @@ static const scen_t SCEN[] = {
     {"varintAdaptiveEncode", s_adaptive_encode, 5},
     {"varintAdaptiveEncodeWith", s_adaptive_encode_with, 30},
     {"varintAdaptiveDecode", s_adaptive_decode, 30},
+    {"varintAdaptiveDecode(capacity<n)", s_adaptive_decode_cap, 24},
+    {"varintDictBuild(reused-handle)", s_dict_rebuild_reuse, 4},
     {"varintBitmapCreate", s_bm_create, 1},
     {"varintBitmapClone", s_bm_clone, SH_N},
     {"varintBitmapAdd", s_bm_add, SH_N},
